@@ -10,9 +10,10 @@ for p in /verif/mutants/*/*.patch; do
   cd $WT; git checkout -q -- . ; git clean -fdq
   if ! patch -p1 -s --no-backup-if-mismatch < $p; then echo "$(basename $(dirname $p))/$(basename $p) DOES-NOT-APPLY" >> $OUT; continue; fi
   if ! cargo build --offline -q 2>/dev/null; then echo "$(basename $(dirname $p))/$(basename $p) BUILD-FAILS" >> $OUT; continue; fi
-  T=$(timeout 300 cargo test --offline 2>&1 | grep -E "^test result" | head -1)
-  # a mutant that makes a test loop: timeout kills cargo, not the test binary, which keeps the pipe open
+  # a mutant that makes a test loop: timeout kills cargo, not the test binary (a pipe would stay open), hence the file
+  timeout 300 cargo test --offline > /tmp/vseed/mutcheck.log 2>&1
   pkill -f "$CARGO_TARGET_DIR/debug/deps/asc[a]-" 2>/dev/null
+  T=$(grep -E "^test result" /tmp/vseed/mutcheck.log | head -1)
   echo "$(basename $(dirname $p))/$(basename $p) ${T:-NO-RESULT}" >> $OUT
 done
 cd /; git -C /repo worktree remove --force $WT
